@@ -304,3 +304,6 @@ class C06(Prop):
 
 
 PROP = C06()
+
+PROP.rule += (" Strata added while closing seeded changes (DESIGN section 10): "
+              "undeclared columns, in-place NaN after a table access, |NULL| < 2 with neighbours at 1 ulp, literal NaN cells, float32/float16 tables, formats with width/sign/upper case, the written text read with null_policy='none', files without a NULL item read through a used object.")
